@@ -205,11 +205,12 @@ func TestReplay(t *testing.T) {
 		Violated bool       `json:"violated"`
 		Detail   string     `json:"detail"`
 		Error    string     `json:"error,omitempty"`
+		Class    string     `json:"class,omitempty"` // recorded known-finding class the case lies in, if any
 	}
 	var rs []res
 	for _, c := range cases {
 		v, d, err := evalCase(c)
-		r := res{Case: c, Violated: v, Detail: d}
+		r := res{Case: c, Violated: v, Detail: d, Class: known.Match(c)}
 		if err != nil {
 			r.Error = err.Error()
 		}
